@@ -6,7 +6,7 @@ ROOT = os.path.dirname(os.path.dirname(os.path.abspath(__file__)))
 BASELINE = "cd /repo && /venv/bin/python -m pytest -ra -q -p no:cacheprovider --timeout=900 --continue-on-collection-errors"
 
 COMMON_NOTE = ("Trusted: Lean 4.33 kernel; axioms propext, Classical.choice, Quot.sound only (audited per theorem on every run; no sorry, "
-               "native_decide, bv_decide or own axioms); the translators tools/extract.py (tables) and tools/pysrc2lean*.py (control logic of the parsers, the checksum, to_bytes(), the request loop, the configuration-item codec, the field codec, the serial back end, the helper setters); the correspondence check (differential, sizes in the "
+               "native_decide, bv_decide or own axioms); the translators tools/extract.py (tables) and tools/pysrc2lean*.py (control logic of the parsers, the checksum, to_bytes(), the request loop, the configuration-item codec, the field codec, the serial back end, the helper setters, the renderers); the correspondence check (differential, sizes in the "
                "evidence); the hand-written Spec/ transcription of the u-blox interface description. ")
 
 P = {
@@ -81,7 +81,9 @@ TTY = (" Source-level tie: scan / _receive / _transmit / _flush_input / _recover
 HLP = (" Source-level tie: every helper the property names (enable_gnss / disable_gnss / _find_entry / the two presets, X4_Flags.enable / disable, set_rate_in_hz, save / reset, "
        "warm_start / cold_start / start / stop, UbxCfgEsflaSet.set, lever_arm, set_datetime, backup / clear) is translated from the Python AST on every run "
        "(tools/pysrc2lean_helpers.py -> Gen/SrcHelpers.lean) and proved equal to the model on the field container of a decoded frame (Proofs/SrcEquiv/Helpers*; TransferHelpers).")
-SRC = {'C17': HLP, 'C07': TYP, 'C08': TYP, 'C04': SRV, 'C05': SRV, 'C06': SRV, 'C10': SRV, 'C12': SRV + TTY, 'C13': CFG, 'C14': CFG,
+RND = (" Source-level tie: the thirteen table-driven __str__ methods, with the attributes their unpack derives from the value, are translated from the Python AST on every run "
+       "(tools/pysrc2lean_render.py -> Gen/SrcRender.lean) and proved equal to the model's render (Proofs/SrcEquiv/Render; TransferRender: every generated renderer is total).")
+SRC = {'C19': RND, 'C17': HLP, 'C07': TYP, 'C08': TYP, 'C04': SRV, 'C05': SRV, 'C06': SRV, 'C10': SRV, 'C12': SRV + TTY, 'C13': CFG, 'C14': CFG,
        'C01': PARSE, 'C02': PARSE, 'C03': PARSE, 'C09': PARSE, 'C11': PARSE, 'C15': PARSE, 'C16': PARSE, 'C18': PARSE + TTY}
 SRCTECH = ' + source-level translation (Python AST -> Lean) proved equal to the model'
 
